@@ -76,8 +76,10 @@ class GFile(ModelObject):
             def f(interp):
                 me.closed += 1
 
+        elif name == "sync":
+            f = lambda interp: None  # noqa: E731
         else:
-            raise PyRaise("AttributeError", (name,))
+            raise Unsupported(f"netCDF Dataset attribute {name} is not modelled")
         f._pyvc_model = True
         return f
 
@@ -216,6 +218,10 @@ class FVar(ModelObject):
             raise PyRaise("AttributeError", (name,))
         if name == "add_offset":
             return offset_f[self.name](self.file.fid)
+        from .warm import NC_VARIABLE_API
+
+        if name in NC_VARIABLE_API:
+            raise Unsupported(f"netCDF Variable attribute {name} is not modelled")
         raise PyRaise("AttributeError", (name,))
 
     def pv_getitem(self, cx, idx):
@@ -253,8 +259,10 @@ class FFile(ModelObject):
                 cx.oblige("closing a forcing file that is open", me.open is True, kind="pre")
                 me.open = False
 
+        elif name == "sync":
+            f = lambda interp: None  # noqa: E731
         else:
-            raise PyRaise("AttributeError", (name,))
+            raise Unsupported(f"netCDF Dataset attribute {name} is not modelled")
         f._pyvc_model = True
         return f
 
